@@ -1,5 +1,7 @@
 def sig(fl):
     e = fl["event"]
+    if "label" in e or e.get("op") == "migrateCycle" or any("label" in x for x in fl["segment"][1:3]):
+        return "plugin op=%s" % e.get("op")
     return "op=%s" % e.get("op")
 
 
@@ -16,7 +18,11 @@ CONF = {
         {"module": "Gen_QuotaAccounting", "cfg": "Gen_C01_sim.cfg", "simulate": {"quick": "num=150", "thorough": "num=2000"},
          "depth": 26, "timeout": 900},
     ],
-    "go": [{"pkg": "pkg/scheduler/plugins/elasticquota/core", "test": "TestVerifC01"}],
+    "go": [{"pkg": "pkg/scheduler/plugins/elasticquota/core", "test": "TestVerifC01"},
+           # plugin level (growth): label -> group routing with the default group, migrateDefaultQuotaGroupsPod cycle
+           {"pkg": "pkg/scheduler/plugins/elasticquota", "test": "TestVerifC01Plugin", "uses_script": False,
+            "extra_pkgs": ["pkg/scheduler/plugins/elasticquota/core"],
+            "trace": {"module": "QuotaPluginTrace", "cfg": "Trace_C01_plugin.cfg"}}],
     "trace": {"module": "QuotaAccountingTrace", "cfg": "Trace_C01.cfg"},
     "signature": sig,
     "assumptions": [
